@@ -92,7 +92,7 @@ DEFAULT = dict(
     infoCmp='ne', infoValue=0, statesetValues=[], unitForbidden=[], tsOrderExempt=[], metricTypes=[],
     histTypes=[], untyped='', summaryNegCmp='lt', nhStructCatchesKeyError=False, nhSkipsChecks=False,
     nhSuffixRecheck=False, tsCoerce=False, nanGuardsFloat=False, leNaNNumeric=False, tsOverflowFallback=False,
-    histSkipsNh=False, tsFracStrict=False, remEscapeAware=False)
+    histSkipsNh=False, tsFracStrict=False, remEscapeAware=False, tsCompareViaFloat=False)
 
 
 def _emit(ok, v, whys):
@@ -147,6 +147,7 @@ def _emit(ok, v, whys):
                    ('nhSuffixRecheck', "second `if name.endswith(suffixes): raise` after the name is taken from the labels"),
                    ('tsCoerce', "`if not isinstance(other, Timestamp): return float(self) > other` (and `<`) in samples.Timestamp"),
                    ('tsOverflowFallback', "`try: return float(self) > other / except OverflowError: return self.sec > other` (and `<`)"),
+                   ('tsCompareViaFloat', "variant: `return float(self) > float(other)` for EVERY operand, also Timestamp against Timestamp (nanoseconds lost)"),
                    ('histSkipsNh', "`if s.native_histogram is not None: continue` as the first statement of the loop of _check_histogram"),
                    ('nanGuardsFloat', "`isinstance(sample.value, float) and math.isnan(sample.value)`"),
                    ('tsFracStrict', "_parse_timestamp, aaaa.bbbb form: `int(parts[1])` on the whole fraction and `-0.x` left to the float form"),
@@ -440,17 +441,21 @@ def generate(repo):
             guard = 'if not isinstance(other, Timestamp):\n    return float(self) %s other' % op
             guard_try = ('if not isinstance(other, Timestamp):\n    try:\n        return float(self) %s other\n'
                          '    except OverflowError:\n        return self.sec %s other' % (op, op))
+            via_float = ('try:\n    return float(self) %s float(other)\nexcept OverflowError:\n    return self.sec %s other' % (op, op))
+            if body_ == [via_float]:
+                res.append((True, True, True))
+                continue
             if body_ == [guard_try, last]:
-                res.append((True, True))
+                res.append((True, True, False))
             elif body_ == [guard, last]:
-                res.append((True, False))
+                res.append((True, False, False))
             elif body_ == [last]:
-                res.append((False, False))
+                res.append((False, False, False))
             else:
                 raise Fail('Timestamp.%s changed: %s' % (meth, ' / '.join(body_).replace('\n', ' ')))
         if res[0] != res[1]:
             raise Fail('Timestamp.__gt__ and __lt__ differ in their coercion')
-        v['tsCoerce'], v['tsOverflowFallback'] = res[0]
+        v['tsCoerce'], v['tsOverflowFallback'], v['tsCompareViaFloat'] = res[0]
         # _check_histogram: native histogram samples skipped at the top of the loop
         hloops = [n for n in hist.body if isinstance(n, ast.For) and ast.unparse(n.target) == 's']
         if len(hloops) != 1:
